@@ -14,7 +14,6 @@ package main
 import (
 	"bytes"
 	"encoding/json"
-	"fmt"
 	"os"
 	"time"
 
@@ -62,13 +61,12 @@ func execRun(bins *binaries, scratch string, job childJob) runRecord {
 		rr.Fail = "bad result record: " + err.Error()
 		return rr
 	}
-	files, _ := filepathGlob(out.Dir + "/akita_sim_*.sqlite3")
-	if len(files) != 1 {
-		rr.Fail = fmt.Sprintf("expected one akita sqlite file, found %d", len(files))
+	if rr.Res.SQLite == "" {
+		rr.Fail = "the run wrote no akita sqlite file"
 		return rr
 	}
 	if job.Case.Timing {
-		m, err := readMetrics(files[0])
+		m, err := readMetrics(out.Dir + "/" + rr.Res.SQLite)
 		if err != nil {
 			rr.Fail = "cannot read mgpusim_metrics: " + err.Error()
 			return rr
